@@ -201,3 +201,22 @@ Proof.
     eapply H1; eauto. apply closed_complete; assumption.
 Qed.
 End L.
+
+(* the dataflow inclusions of the result, as used by the allocation proof *)
+Theorem liveness_closed (p : prog) fuel r : liveness fuel p = Some r ->
+  length r = length p
+  /\ (forall j i, p !! j = Some i -> forall id k, mem (iuse i) id k = true -> mem (nth_in r j) id k = true)
+  /\ (forall j i, p !! j = Some i -> forall id k, mem (nth_out r j) id k = true -> mem (idef i) id k = false -> mem (nth_in r j) id k = true)
+  /\ (forall j i j', p !! j = Some i -> In (Some j') (isucc i) -> forall id k, mem (nth_in r j') id k = true -> mem (nth_out r j) id k = true).
+Proof.
+  intro H. unfold liveness in H.
+  assert (Hi : Inv p (init p)) by (split; [apply init_sound|split; [apply init_usein|apply init_length]]).
+  destruct (iter_result p fuel (init p) r Hi H) as ((Hs & Hu & Hlen) & Hcl).
+  split; [exact Hlen|]. split; [exact Hu|]. split.
+  - intros j i Hj id k Ho Hd. assert (Hlt : (j < length p)%nat) by (eapply lookup_lt_Some; eauto).
+    destruct (lookup_lt_is_Some_2 r j ltac:(lia)) as [l Hl]. destruct (Hcl j Hlt i l Hj Hl) as [_ H2].
+    unfold nth_in, nth_out in *. rewrite Hl in *. now apply H2.
+  - intros j i j' Hj Hin id k Hm. assert (Hlt : (j < length p)%nat) by (eapply lookup_lt_Some; eauto).
+    destruct (lookup_lt_is_Some_2 r j ltac:(lia)) as [l Hl]. destruct (Hcl j Hlt i l Hj Hl) as [H1 _].
+    unfold nth_out. rewrite Hl. eapply H1; eauto.
+Qed.
